@@ -120,6 +120,15 @@ def tok_utf8(rng: random.Random) -> dict:
     return {"k": "utf8", "hex": chr(cp).encode("utf-8").hex(), "exp": chr(cp)}
 
 
+def tok_utf8_truncated(rng: random.Random) -> dict:
+    """A 2-4 byte character cut short (lead byte plus 0-2 valid continuation bytes) that is never completed:
+    'decoded as it stands' means every byte is reported on its own, none is dropped."""
+    cp = rng.choice([rng.randrange(0x80, 0x800), rng.randrange(0x800, 0xD800), rng.randrange(0xE000, 0x10000), rng.randrange(0x10000, 0x110000), rng.randrange(0x10000, 0x110000)])
+    data = chr(cp).encode("utf-8")
+    data = data[: rng.randrange(1, len(data))]
+    return {"k": "utf8trunc", "hex": data.hex(), "exp": f"<{data[0]}>", "exps": [f"<{b}>" for b in data]}
+
+
 def tok_high_narrow(rng: random.Random) -> dict:
     c = rng.randrange(128, 256)
     return {"k": "high", "hex": bytes([c]).hex(), "exp": chr(c)}
@@ -179,6 +188,9 @@ def gen_tokens(rng: random.Random, enc: str) -> list[dict]:
             toks.append(tok_dbcs(rng))
         else:
             toks.append(tok_high_narrow(rng))
+    if enc == "utf8" and rng.random() < 0.12:
+        # only at the end of the stream (or before a bare ESC): nothing that follows can complete the character
+        toks.append(tok_utf8_truncated(rng))
     if rng.random() < 0.12:
         toks.append({"k": "esc", "hex": "1b", "exp": "esc"})
     return toks
@@ -410,9 +422,17 @@ class _Sched:
             # a bare ESC followed by anything, or ESC-prefixed tokens after a meta-able byte, are
             # only generated at the end of the stream, so token boundaries are unambiguous
             if all(b in tb for b in bounds):
-                exp = [t["exp"] for t in self.tokens]
+                exp = []
+                for t in self.tokens:
+                    exp.extend(t.get("exps") or [t["exp"]])
                 if events != exp:
-                    kinds = sorted({t["k"] for t, e in zip(self.tokens, events + [None] * len(self.tokens)) if t["exp"] != e})
+                    kinds, off = set(), 0
+                    for t in self.tokens:
+                        te = t.get("exps") or [t["exp"]]
+                        if events[off : off + len(te)] != te:
+                            kinds.add(t["k"])
+                        off += len(te)
+                    kinds = sorted(kinds)
                     self.violate(
                         "C05.4",
                         f"token-decoded-wrong kinds={','.join(kinds)} enc={self.enc}",
